@@ -82,6 +82,17 @@ class Builder:
         if len(names) != 1 or len(rets) != len([n for n in rets if isinstance(n.value, ast.Name)]):
             raise AnalysisError("string builder: the function does not return a single accumulator variable")
         self.acc = names.pop()
+        # the accumulator may be handed from one local to the next (`numerator = ret` ... `result = numerator`):
+        # all names on that chain of plain copies denote the one string being built
+        self.family = {self.acc}
+        changed = True
+        while changed:
+            changed = False
+            for n in ast.walk(self.fn):
+                if isinstance(n, ast.Assign) and len(n.targets) == 1 and isinstance(n.targets[0], ast.Name) and n.targets[0].id in self.family \
+                        and isinstance(n.value, ast.Name) and n.value.id not in self.family:
+                    self.family.add(n.value.id)
+                    changed = True
 
     # ------------------------------------------------------------------ running
     def run(self):
@@ -106,10 +117,12 @@ class Builder:
         if isinstance(node, (ast.Assign, ast.AnnAssign)):
             targets = node.targets if isinstance(node, ast.Assign) else [node.target]
             value = node.value
-            if any(isinstance(t, ast.Name) and t.id == acc for t in targets):
+            if any(isinstance(t, ast.Name) and t.id in self.family for t in targets):
                 if isinstance(value, ast.Constant) and value.value == "":
                     return {State()}
-                if isinstance(value, ast.BinOp) and isinstance(value.op, ast.Add) and isinstance(value.left, ast.Name) and value.left.id == acc:
+                if isinstance(value, ast.Name) and value.id in self.family:
+                    return states  # the string is handed to the next local
+                if isinstance(value, ast.BinOp) and isinstance(value.op, ast.Add) and isinstance(value.left, ast.Name) and value.left.id in self.family:
                     return self.append(node, value.right, states)
                 raise AnalysisError("string builder: accumulator assigned from an unrecognised expression at line %d" % node.lineno)
             # tracked boolean locals
@@ -127,7 +140,7 @@ class Builder:
                     self.local_values.setdefault(name, []).append(value)
             return states
         if isinstance(node, ast.AugAssign):
-            if isinstance(node.target, ast.Name) and node.target.id == acc:
+            if isinstance(node.target, ast.Name) and node.target.id in self.family:
                 if not isinstance(node.op, ast.Add):
                     raise AnalysisError("string builder: accumulator updated with an operator other than += at line %d" % node.lineno)
                 return self.append(node, node.value, states)
@@ -234,7 +247,7 @@ class Builder:
         if isinstance(test, ast.UnaryOp) and isinstance(test.op, ast.Not):
             return [(not o, s2) for o, s2 in self.cond(test.operand, s)]
         if isinstance(test, ast.Name):
-            if test.id == self.acc:
+            if test.id in self.family:
                 return [(s.last != EMPTY or s.region == DEN, s)]
             b = s.bool(test.id)
             if b is not None:
